@@ -6,7 +6,7 @@ import shutil
 import tempfile
 import time
 
-from vf import build, busproc, client, gen, report
+from vf import build, busproc, client, gen, h1trace, report
 from vf.models import pending as pm
 
 PROP = "C09"
@@ -21,7 +21,9 @@ RULE = ("histories of 25..55 operations by 3..5 raw clients (+1 passive observer
         "operation every client does a driver round-trip and everything it received is attributed (by a token in the "
         "body) and compared with vf/models/pending.py: who received the message how often, which error the sender got, "
         "which NoReply errors arrived (exactly one per slot closed by disconnect / timeout, none otherwise, never before "
-        "reply_timeout elapsed). distinct = (operation class, message type, addressing, expected fate, observed fate, "
+        "reply_timeout elapsed); then, after one more round-trip, the bus's own pending-reply list (state dump of hook H1) "
+        "must equal the model's set of open slots (a slot missing in the bus is tolerated only once its deadline has "
+        "passed). distinct = (operation class, message type, addressing, expected fate, observed fate, "
         "finite timeout?, small limit?)")
 
 BUS = b"org.freedesktop.DBus"
@@ -66,6 +68,10 @@ class Hang(Exception):
         self.phase = phase
 
 
+class StartFailure(Exception):
+    """the daemon's socket did not appear in time (overloaded machine): harness event, the history is tried again"""
+
+
 class History(object):
     def __init__(self, b, rundir, rng, part, hid):
         self.b, self.rundir, self.rng, self.part, self.hid = b, rundir, rng, part, hid
@@ -84,6 +90,9 @@ class History(object):
         self.departed = []
         self.used_names = 0
         self.config_text = ""
+        self.trace = None
+        self.ndumps = 0
+        self.flagged = set()
 
     # -- plumbing ------------------------------------------------------------------------------------
     def witness(self, extra=None):
@@ -136,9 +145,12 @@ class History(object):
             limits["max_replies_per_connection"] = self.limit
         self.model = pm.Pending(self.limit or 128, self.timeout_ms)
         self.config_text = busproc.make_config("@SOCK@", policy_xml=policy_xml(), limits=limits)
-        self.daemon = busproc.Daemon(self.b, self.rundir, self.config_text, name="h%d" % self.hid)
+        os.makedirs(self.rundir, exist_ok=True)
+        self.trace = os.path.join(self.rundir, "trace-h%d" % self.hid)
+        self.daemon = busproc.Daemon(self.b, self.rundir, self.config_text, name="h%d" % self.hid,
+                                     env={"DBUS_VERIF_TRACE": self.trace})
         if not self.daemon.started():
-            raise RuntimeError("daemon did not start: " + self.daemon.stderr_text()[-400:])
+            raise StartFailure("daemon did not start within busproc's deadline: " + self.daemon.stderr_text()[-400:])
         self.obs = client.connect(self.daemon.sock, self.clock)
         r = self.obs.bus_call(b"AddMatch", b"s", [NOC_RULE])
         if r.msg.type != 2:
@@ -225,6 +237,66 @@ class History(object):
                                "%s received an unexplained error from the bus: %r" % (self.lab(e.at), e.rec))
             else:
                 self.violation("unexpected-driver-message", "%s received an unexplained driver message: %r" % (self.lab(e.at), e.rec))
+        self.compare_dump()
+
+    def how_closed(self, key):
+        """how a slot the bus still lists should have gone away (stable class for the violation key)"""
+        for t in reversed(self.closed):
+            if t[:3] == key:
+                return {"reply": "answered", "timeout": "noreply-seen"}[t[3]]
+        if key in self.noreply_calls:
+            return "never-opened:no-reply-expected"
+        if key in self.refused_calls:
+            return "never-opened:refused-call"
+        if key[0] in self.departed:
+            return "caller-disconnected"
+        if key[1] in self.departed or key[1] == b"?":
+            return "callee-disconnected"
+        return "never-opened"
+
+    def compare_dump(self):
+        """H1: the bus's own pending-reply list at a quiescent point against the model's open slots.  Every client has done its
+        round-trip for this operation; one further round-trip guarantees that the dump of an earlier dispatch is complete."""
+        if self.obs is None or not self.daemon.alive():
+            return
+        self.phase = "barrier"
+        self.obs.barrier()
+        self.obs.take_inbox()
+        now = time.monotonic()
+        blk = h1trace.last_block(self.trace)
+        if blk is None:
+            self.part.count("dump-unavailable")
+            return
+        self.ndumps += 1
+        self.part.count("dump-comparisons")
+        bus = collections.Counter(blk.pending)
+        self.part.count("dump-slots-compared", len(self.model.slots))
+        for key, n in bus.items():
+            if n > 1 and ("dup", key) not in self.flagged:
+                self.flagged.add(("dup", key))
+                self.violation("pending-list-differs:slot-listed-%d-times" % n, "the bus holds %d reply slots %r" % (n, key))
+            if key not in self.model.slots and key not in self.flagged:
+                self.flagged.add(key)
+                how = self.how_closed(key)
+                self.violation("pending-list-differs:extra-in-bus:%s" % how, "the bus still holds the reply slot caller=%s callee=%s serial=%d "
+                               "which should not exist (%s)" % (self.lab(key[0]), self.lab(key[1]), key[2], how))
+        for key, slot in self.model.slots.items():
+            if key in bus or key in self.flagged:
+                continue
+            if self.model.timeout is not None and now - slot.opened_at >= self.model.timeout - pm.SLACK:
+                self.part.count("dump-slot-past-deadline-tolerated")     # its NoReply is on the way; judged when it is read
+                continue
+            self.flagged.add(key)
+            self.violation("pending-list-differs:missing-in-bus:still-open", "the bus no longer holds the reply slot caller=%s callee=%s "
+                           "serial=%d: no reply was delivered, nobody disconnected, no NoReply was seen%s"
+                           % (self.lab(key[0]), self.lab(key[1]), key[2],
+                              "" if self.model.timeout is None else " and only %.0f of %d ms have passed since the call was written"
+                              % ((now - slot.opened_at) * 1000, self.timeout_ms)))
+        if self.ndumps % 8 == 0:
+            try:
+                open(self.trace, "w").close()
+            except OSError:
+                pass
 
     def quiesce(self):
         self.sync()
@@ -593,7 +665,7 @@ class History(object):
         for c in self.clients + ([self.obs] if self.obs else []):
             c.close()
         if self.daemon is not None:
-            self.daemon.stop()
+            self.daemon.stop(timeout=180)
             for cls, site, text in self.daemon.problems():
                 self.part.violation("%s:%s:%s" % (PROP, cls, site), "daemon reported %s" % cls, self.witness({"stderr": text[-3000:]}))
             self.part.count("daemon-stderr-scraped")
@@ -601,8 +673,10 @@ class History(object):
 
 def _run_one(b, rundir, seed, shard, i, part):
     hid = shard * 100000 + i
-    for attempt in (0, 1):
-        d = os.path.join(rundir, "h%d-%d" % (i, attempt))
+    starts = 0
+    attempt = 0
+    while attempt < 2:
+        d = os.path.join(rundir, "h%d-%d-%d" % (i, attempt, starts))
         h = History(b, d, gen.rng_for(seed, PROP, shard, i), part, hid)
         try:
             h.run()
@@ -610,6 +684,17 @@ def _run_one(b, rundir, seed, shard, i, part):
             part.count("histories")
             part.count("histories:" + ("finite-timeout" if h.timeout_ms else "no-timeout"))
             return h
+        except StartFailure as e:
+            try:
+                h.daemon.stop()        # no verdict is drawn from a daemon that never came up
+            except Exception:
+                pass
+            starts += 1
+            part.count("daemon-start-retried")
+            if starts >= 4:
+                part.inconclusive.append("history %d: %s" % (hid, e))
+                return None
+            continue
         except (client.Timeout, client.Closed) as e:
             alive = h.daemon.alive() if h.daemon else False
             try:
@@ -621,6 +706,7 @@ def _run_one(b, rundir, seed, shard, i, part):
                                % (h.phase, type(e).__name__, alive), h.witness())
             else:
                 part.count("watchdog")
+            attempt += 1
         finally:
             shutil.rmtree(d, ignore_errors=True)
     return None
@@ -676,6 +762,8 @@ def run(tier, seed, replay=None, scale=1.0):
     for k in REQUIRED:
         r.require(k, 3 if scale >= 1 else 1)
     r.require("daemon-stderr-scraped", 1)
+    r.require("dump-comparisons", int(5000 * min(1.0, scale)))
+    r.require("dump-slots-compared", int(5000 * min(1.0, scale)))
     r.assumptions = [
         "policy under test is the one in coverage.policy (written for this check): no rule carries send_requested_reply=\"false\" or "
         "receive_requested_reply=\"false\"; a call to a connection owning none of the listed names must be refused by that policy, "
@@ -688,5 +776,8 @@ def run(tier, seed, replay=None, scale=1.0):
         "the timeout is judged in one direction only: a NoReply read earlier than reply_timeout after the call was written is premature; "
         "how late the bus may be is bounded only by the 20 s watchdog",
         "a would-be replier's AccessDenied is identified by REPLY_SERIAL = serial of the refused reply",
+        "hook H1 (FREEDESKTOP_DBUS_VERIF build) dumps the pending-reply list after every dispatch; it is read after a further driver "
+        "round-trip; with a finite timeout a model slot absent from the dump is accepted when reply_timeout has elapsed since the "
+        "call was written (its NoReply is then judged when read), lateness of the bus is never judged",
     ]
     return r.finish()
